@@ -662,3 +662,139 @@ func TestC17Crash(t *testing.T) {
 		}
 	})
 }
+
+// Concurrent clients and a crash: what an acknowledged GETATTR or READ has shown is on the device at that
+// moment.  One writer per file rewrites it with strictly growing sizes (the size names the version); readers
+// note the version each reply shows and where the device trace stood when the reply arrived.  The image of
+// that moment (un-barriered writes lost, or the plain cut), recovered with simple.Recover, must hold that
+// version or a later one.  The device is slow (every write takes a moment), as devices are.
+func TestC17ConcCrash(t *testing.T) {
+	rapid.Check(t, func(t *rapid.T) {
+		d := NewDisk(simpleDiskSize)
+		n := simple.MakeNfs(d)
+		nfiles := rapid.IntRange(1, 2).Draw(t, "files")
+		nreaders := rapid.IntRange(1, 3).Draw(t, "readers")
+		nwrites := rapid.IntRange(5, 40).Draw(t, "writes")
+		delay := time.Duration(pick(t, []int{0, 20, 100, 300}, "write_delay_us")) * time.Microsecond
+		useSetattr := rapid.Bool().Draw(t, "setattr_too")
+		salt := rapid.Uint64().Draw(t, "salt")
+		if delay > 0 {
+			d.SetHook(func(kind string, addr uint64) {
+				if kind == "w" {
+					time.Sleep(delay)
+				}
+			})
+		}
+		type obs struct {
+			File    uint64 `json:"file"`
+			Version uint64 `json:"version"`
+			How     string `json:"how"`
+			Mark    int    `json:"trace_position"`
+		}
+		var mu sync.Mutex
+		var seen []obs
+		var wg, writers sync.WaitGroup
+		done := make(chan struct{})
+		for f := 0; f < nfiles; f++ {
+			inum := uint64(2 + f)
+			writers.Add(1)
+			wg.Add(1)
+			go func() {
+				defer wg.Done()
+				defer writers.Done()
+				for k := 1; k <= nwrites; k++ {
+					if useSetattr && k%5 == 0 {
+						// growth by SETATTR: the version is still the size
+						sCall(n, sOp{Kind: "setattr", Inum: inum, Size: uint64(10 + k), SetSz: true})
+						continue
+					}
+					data := patternData(uint32(k), uint64(10+k))
+					sCall(n, sOp{Kind: "write", Inum: inum, Off: 0, Cnt: uint32(len(data)), Data: data, Which: 2})
+				}
+			}()
+			for r := 0; r < nreaders; r++ {
+				wg.Add(1)
+				go func(r int) {
+					defer wg.Done()
+					for i := 0; ; i++ {
+						select {
+						case <-done:
+							return
+						default:
+						}
+						var v uint64
+						how := "GETATTR"
+						if (i+r)%2 == 0 {
+							g := sCall(n, sOp{Kind: "getattr", Inum: inum})
+							if !g.OK || g.Size == 0 {
+								continue
+							}
+							v = g.Size - 10
+						} else {
+							how = "READ"
+							rd := sCall(n, sOp{Kind: "read", Inum: inum, Off: 0, Cnt: simpleMax})
+							if !rd.OK || len(rd.Data) == 0 {
+								continue
+							}
+							v = uint64(len(rd.Data)) - 10
+						}
+						m := d.Mark()
+						mu.Lock()
+						if len(seen) < 20000 {
+							seen = append(seen, obs{inum, v, how, m})
+						}
+						mu.Unlock()
+					}
+				}(r)
+			}
+		}
+		go func() { writers.Wait(); close(done) }()
+		o := Guard(60*time.Second, func() { wg.Wait() })
+		d.SetHook(nil)
+		n.VerifShutdown()
+		if o.Slow || o.Bad() {
+			return // hangs and panics are reported by the other units
+		}
+		trace := d.Trace()
+		// verify: every observation of a version for the first time, plus a sample
+		first := map[[2]uint64]bool{}
+		nchecked := 0
+		for i, ob := range seen {
+			key := [2]uint64{ob.File, ob.Version}
+			if first[key] && Hash(salt, i)%uint64(len(seen)/20+1) != 0 {
+				continue
+			}
+			first[key] = true
+			nchecked++
+			vs := Variants(trace, ob.Mark, salt, 0)
+			if len(vs) > 2 {
+				vs = vs[:2]
+			}
+			for _, v := range vs {
+				img := ImageOf(d.size, d.init, trace, ob.Mark, v.Drop)
+				img.SetRecord(false)
+				n2 := simple.Recover(img)
+				g := sCall(n2, sOp{Kind: "getattr", Inum: ob.File})
+				n2.VerifShutdown()
+				var have uint64
+				if g.OK && g.Size >= 10 {
+					have = g.Size - 10
+				}
+				if !g.OK || have < ob.Version {
+					failf(t, "C17", map[string]any{"observation": ob, "variant": v.Name, "files": nfiles, "readers": nreaders, "write_delay_us": delay.Microseconds()},
+						"%s of file %d was answered with version %d (size %d), but the device image of that moment (%s), recovered, holds version %d (GETATTR ok=%v size %d): an acknowledged reply showed a write that a crash would undo",
+						ob.How, ob.File, ob.Version, ob.Version+10, v.Name, have, g.OK, g.Size)
+				}
+			}
+		}
+		St.Eval(nchecked)
+		St.ClassN("read_replies_verified_in_a_crash_image", nchecked)
+		if nchecked > 0 {
+			St.NT(Hash("c17conccrash", nfiles, nreaders, nwrites, delay, salt))
+		}
+		if St.WantSample(nchecked > 0) {
+			St.Sample(map[string]any{"kind": "concurrent readers and a writer, device image at a read reply", "files": nfiles, "readers_per_file": nreaders,
+				"writes": nwrites, "replies_seen": len(seen), "verified": nchecked, "trace_events": len(trace)}, nchecked > 0)
+		}
+	})
+}
